@@ -582,8 +582,10 @@ func (fv *FV) ident(e *Env, id *ast.Ident) Value {
 		}
 	case *types.Var:
 		if v, ok := fv.lookup(e, o); ok {
-			if fv.boxed[o] && fv.spec == nil || fv.boxed[o] && fv.spec != nil {
-				return fv.loadCell(e, boxComp(o.Type()), o.Type(), "", v.T)
+			if fv.boxed[o] && v.K == kScalar && v.T.Sort == sRef {
+				if _, s := sortOf(o.Type()); s != sRef || fv.isBoxRef(e, o, v) {
+					return fv.loadCell(e, boxComp(o.Type()), o.Type(), "", v.T)
+				}
 			}
 			return v
 		}
@@ -601,6 +603,17 @@ func (fv *FV) ident(e *Env, id *ast.Ident) Value {
 		return Value{K: kScalar, T: fv.s.declConst("fn$"+sanitize(o.FullName()), sRef), Type: o.Type()}
 	}
 	return fv.unknown(fv.typeOf(id), "identifier "+id.Name)
+}
+
+// isBoxRef: for boxed variables whose own sort is Ref, decide whether v is the
+// box (from the environment) or the bound entry value (from a contract binding).
+func (fv *FV) isBoxRef(e *Env, o types.Object, v Value) bool {
+	if fv.spec != nil {
+		if b, ok := fv.spec.bind[o]; ok && b.T.S == v.T.S {
+			return false
+		}
+	}
+	return true
 }
 
 func boxComp(t types.Type) string {
